@@ -183,7 +183,7 @@ def sanitizer_reports(stderr, allow=BOUNDS_ALLOW):
             where = os.path.basename(mm.group(1)) + ":" + mm.group(2)
         fn = ""
         for j in range(i + 1, min(i + 40, len(lines))):
-            m2 = re.search(r"#\d+ 0x[0-9a-f]+ in (\S+) (/repo/\S+?):(\d+)", lines[j])
+            m2 = re.search(r"#\d+ 0x[0-9a-f]+ in (\S+) (" + re.escape(os.environ.get("VERIF_REPO", "/repo")) + r"/\S+?):(\d+)", lines[j])
             if m2:
                 fn = m2.group(1)
                 if not where:
@@ -212,3 +212,62 @@ def report_sanitizers(ctx, stderr, replay=None, in_scope=True, limit=5):
         if n >= limit:
             break
     return n
+
+
+def pmap(fn, items, workers=16):
+    """parallel map over threads (the work is done in subprocesses)"""
+    import concurrent.futures as cf
+    with cf.ThreadPoolExecutor(workers) as ex:
+        return list(ex.map(fn, items))
+
+
+def run_seq_driver(cmd, seqs, timeout=600, env=None, max_restarts=8):
+    """Drive a line-protocol executor over many independent sequences in one process.
+    seqs: list of lists of command lines (the leading "R" is added here).  The driver must print
+    one line {"reset":...} for every R.  Returns a list (one entry per sequence) of
+    dict(lines=[parsed json], crashed=bool, stderr=str, rc=int).  When the process dies inside
+    sequence j the remaining sequences are run in a fresh process (at most max_restarts times)."""
+    out = [None] * len(seqs)
+    first = 0
+    restarts = 0
+    while first < len(seqs):
+        text = []
+        for s in seqs[first:]:
+            text.append("R")
+            text += s
+        rc, so, se, to = run_driver(cmd, "\n".join(text) + "\n", timeout=timeout, env=env)
+        segs = []
+        for ln in so.split("\n"):
+            if not ln.startswith("{"):
+                continue
+            try:
+                o = json.loads(ln)
+            except ValueError:
+                continue
+            if "reset" in o:
+                segs.append([])
+            elif segs:
+                segs[-1].append(o)
+        died = (rc != 0) or to
+        n_done = len(segs)
+        for j, sg in enumerate(segs):
+            last = (j == n_done - 1)
+            out[first + j] = dict(lines=sg, crashed=bool(died and last), stderr=se if (died and last) else "", rc=rc, timeout=to)
+        if not died:
+            # leak reports etc. arrive at exit with rc 0 only if exitcode is 0; attach stderr to the last one
+            if se and out[first + n_done - 1] is not None:
+                out[first + n_done - 1]["stderr"] = se
+            break
+        if n_done == 0:
+            out[first] = dict(lines=[], crashed=True, stderr=se, rc=rc, timeout=to)
+            n_done = 1
+        first += n_done
+        restarts += 1
+        if restarts > max_restarts:
+            for j in range(first, len(seqs)):
+                out[j] = dict(lines=[], crashed=False, stderr="", rc=None, timeout=False, skipped=True)
+            break
+    for j in range(len(seqs)):
+        if out[j] is None:
+            out[j] = dict(lines=[], crashed=False, stderr="", rc=None, timeout=False, skipped=True)
+    return out
